@@ -1,5 +1,6 @@
 import TracklibVerif.Model.Filter
 import TracklibVerif.Model.FilterExt
+import TracklibVerif.Model.FilterColl
 import TracklibVerif.Drv.Util
 /-! Driver handler for C15 (kernel smoothing). `<sc>` is the scalar: `r` (Rat, tokens `p/q`) or
 `f` (Float, IEEE bit patterns); NaN is `nan` in signals.
@@ -46,6 +47,9 @@ Commands:
                                            → the replies of `seq` after every call, separated by ` # ` (stops at a failure)
   session <sc> <n> { <dim> <names> <signals ;> <m> <kspec of m tokens> }*n
                                            → n replies of `seq` separated by ` # `
+  coll <sc> <n> { <names> <signals ;> }*n <kspec>
+                                           `TrackCollection.smooth` on n tracks (`<kspec>` describes `GaussianKernel(constraint)`)
+                                           → (ok | err:<kind>@<position of the failing track>) # <names> <signals ;> # … (n tracks) # <globals>
   execx r <signal> <kspec>                 `Filter.execute` over Python's numbers (`Model/FilterExt.lean`, scalar `Ext Rat`): the signal and
                                            the weights of a `list` may hold `nan`, `inf`, `-inf`; any total of the weights
                                            → ok <weight list after the call | none> <output signal> | err:<kind> -/
@@ -283,6 +287,29 @@ def handleSc (sc : Sc α) (cmd : String) (args : List String) : String :=
     match kspec? sc ks, track? sc names sigs with
     | some (KArg.obj false _ f sup S), some t => showCall sc (smooth Globals.initial t f sup S)
     | _, _ => "bad-request"
+  | "coll", n :: rest =>
+    match n.toNat? with
+    | none => "bad-request"
+    | some n =>
+      if rest.length < 2 * n then "bad-request"
+      else
+        let rec tracks? : Nat → List String → Option (List (Sigs α))
+          | 0, _ => some []
+          | m + 1, names :: sigs :: more => do
+            let t ← track? sc names sigs
+            let ts ← tracks? m more
+            pure (t :: ts)
+          | _, _ => none
+        match tracks? n (rest.take (2 * n)), kspec? sc (rest.drop (2 * n)) with
+        | some ts, some (KArg.obj false _ f sup S) =>
+          match collectionSmooth f sup S Globals.initial ts with
+          | none => "bad-request"
+          | some (ts', err, g) =>
+            let st := match err with
+              | none => "ok"
+              | some (i, e) => s!"{showErr e}@{i}"
+            joinWith " # " ([st] ++ ts'.map (showTrack sc) ++ [showGlobals g])
+        | _, _ => "bad-request"
   | "session", n :: rest =>
     match n.toNat? with
     | none => "bad-request"
